@@ -121,9 +121,10 @@ def ok_exits(P, fn, ev=None, depth=2, inline_bools=True, variant="Ok"):
     out = [(b, G.path_literals(ev, b, Pf)) for b in ok_blocks(fn, variant)]
     if depth <= 0:
         return out
+    al = return_aliases(fn)
     for b in sorted(fn.cfg.reachable):
         t = fn.blocks[b]["term"]
-        if t["k"] != "call" or t.get("dest") != {"l": 0}:
+        if t["k"] != "call" or "p" in (t.get("dest") or {"p": 1}) or t["dest"].get("l") not in al:
             continue
         c = t.get("callee") or {}
         g = P.fns.get(c.get("key")) if c.get("key") else None
@@ -314,31 +315,42 @@ def check_min_len(ctx, rule, P, fn_key, pname, k, extra_blocks=None):
 
 
 def check_same_scheme_guard(ctx, rule, P, fn_key, list_param):
-    """Accumulation inside the loop is dominated by same_scheme(elem, &list[0]) == true."""
+    """Every accumulated element is first compared with the list's first element by same_scheme (mixed => Err):
+    where the element is added, `same_scheme(elem, first)` holds - in a loop body or in a fold / try_fold closure."""
+    from . import flow as F
+
     fn = ctx.need_fn(rule, fn_key, P)
     if fn is None:
         return False
-    ev = evaluate(fn)
-    acc = [b for b, s in ev.sites.items() if s.callee[0] in ("AddAssign::add_assign",)]
-    if not acc:
-        return ctx.ob(rule + ".anchor", fn_key + "/accumulate", False, "accumulation (`+=`) not found in `%s`" % fn_key, where=where(fn))
+    accs = F.accumulators(P, fn)
+    if not accs:
+        return ctx.ob(rule + ".anchor", fn_key + "/accumulate", False, "accumulation (`+=`, fold, try_fold) not found in `%s`" % fn_key, where=where(fn))
+
+    def first(z):
+        z = B.peel(z)
+        if z.op == "index" and B.peel(z.a[0]).op == "param" and B.peel(z.a[0]).a[1] == list_param and B._const_int(z.a[1]) == 0:
+            return True
+        if z.op == "call" and B.cname(z) == "Index::index" and len(z.a[1]) == 2 and B.peel(z.a[1][0]).op == "param" and B.peel(z.a[1][0]).a[1] == list_param and B._const_int(z.a[1][1]) == 0:
+            return True
+        return False
+
     ok = True
-    for b in acc:
-        lits = G.path_literals(ev, b, P)
+    for a in accs:
         good = False
-        for atom, pol in lits:
+        for atom, pol in a["lits"]:
             if pol and atom[0] == "atom" and atom[1] == "term":
                 t = atom[2]
                 if t.op == "call" and B.cname(t).endswith("::same_scheme") and len(t.a[1]) == 2:
                     x, y = [B.peel(z) for z in t.a[1]]
-                    def first(z):
-                        return z.op == "index" and B.peel(z.a[0]).op == "param" and B.peel(z.a[0]).a[1] == list_param and B._const_int(z.a[1]) == 0
                     def elem(z):
-                        return any(s.op == "call" and B.cname(s) == "Iterator::next" for s in subterms(z))
+                        # the loop element (an Iterator::next result) or the closure's item parameter
+                        if any(s.op == "call" and B.cname(s) == "Iterator::next" for s in subterms(z)):
+                            return True
+                        return a["mode"] != "loop" and any(s.op == "param" and s.a[0] >= 2 for s in subterms(z))
                     if (first(x) and elem(y)) or (first(y) and elem(x)):
                         good = True
         ok = ok and good
-    return ctx.ob(rule, fn_key + "/same_scheme", ok, "every accumulated element is first compared with %s[0] by same_scheme (mixed schemes => Err)" % list_param, where=where(fn, acc[0]))
+    return ctx.ob(rule, fn_key + "/same_scheme", ok, "every accumulated element is first compared with %s[0] by same_scheme (mixed schemes => Err) [%s]" % (list_param, ", ".join(a["mode"] for a in accs)), where=where(accs[0]["fn"], accs[0]["bb"]))
 
 
 def loop_sources(fn):
